@@ -5,6 +5,7 @@ import (
 	stdjson "encoding/json"
 	"fmt"
 	"reflect"
+	"sort"
 
 	json "github.com/goccy/go-json"
 
@@ -124,9 +125,74 @@ func c01Compare(k int, x interface{}) (kind, detail string) {
 		return "", ""
 	}
 	if d := oracle.TokensEqual(got.out, want.out); d != "" {
+		if oracle.SameUnordered(got.out, want.out) {
+			d = "member-order-differs"
+		} else if gs, ok := oracle.SortMembers(got.out); ok {
+			// name the difference that remains when the order of members is set aside, so that
+			// an ordering difference does not rename every other difference it coincides with
+			if ws, ok := oracle.SortMembers(want.out); ok {
+				if d2 := oracle.TokensEqual(gs, ws); d2 != "" {
+					d = d2
+				}
+			}
+		}
 		return d, fmt.Sprintf("go-json %s, encoding/json %s", clip(got.out), clip(want.out))
 	}
 	return "", ""
+}
+
+// orderClass names a member-order difference by the key set of the map it is blamed on (the
+// element type does not matter for the order of the members).
+func quoteOrderDiffers(m reflect.Value) bool {
+	var raw, quoted []string
+	for _, k := range m.MapKeys() {
+		raw = append(raw, k.String())
+		quoted = append(quoted, k.String()+`"`)
+	}
+	sort.Strings(raw)
+	sort.Strings(quoted)
+	for i := range raw {
+		if raw[i]+`"` != quoted[i] {
+			return true
+		}
+	}
+	return false
+}
+
+func orderClass(bv reflect.Value) string {
+	// the first string-keyed map with two or more members, depth first
+	// first choice: a map whose keys sort differently with and without their closing quote (the
+	// known cause of an order difference); otherwise the first map with two or more members
+	picky := true
+	var find func(v reflect.Value, depth int) (reflect.Value, bool)
+	find = func(v reflect.Value, depth int) (reflect.Value, bool) {
+		if depth > 8 || !v.IsValid() {
+			return v, false
+		}
+		if v.Kind() == reflect.Map && v.Type().Key().Kind() == reflect.String && v.Len() >= 2 && (!picky || quoteOrderDiffers(v)) {
+			return v, true
+		}
+		for _, cv := range components(v) {
+			if m, ok := find(cv, depth+1); ok {
+				return m, true
+			}
+		}
+		return v, false
+	}
+	m, ok := find(bv, 0)
+	if !ok {
+		picky = false
+		m, ok = find(bv, 0)
+	}
+	if ok {
+		var ks []string
+		for _, k := range m.MapKeys() {
+			ks = append(ks, k.String())
+		}
+		sort.Strings(ks)
+		return fmt.Sprintf("map with string keys %q", ks)
+	}
+	return sig(bv)
 }
 
 func clip(b []byte) string {
@@ -159,10 +225,26 @@ func c01Types(c *work.Ctx) {
 					continue
 				}
 				bv := blame(v, func(cv reflect.Value) bool {
+					if fatalPlaced(cv.Type(), p) {
+						return false // a component that alone is a listed fatal shape is not executed here
+					}
 					kk, _ := c01Compare(k, place(cv, p))
 					return kk != ""
 				}, memoFor(memo, p, k))
+				if kind == "member-order-differs" {
+					// blame the innermost value that shows this very difference (not any difference)
+					bv = blame(v, func(cv reflect.Value) bool {
+						if fatalPlaced(cv.Type(), p) {
+							return false
+						}
+						kk, _ := c01Compare(k, place(cv, p))
+						return kk == kind
+					}, nil)
+				}
 				class := fmt.Sprintf("%s : %s", sig(bv), kind)
+				if kind == "member-order-differs" {
+					class = fmt.Sprintf("%s : %s", orderClass(bv), kind)
+				}
 				c.Violation(class, fmt.Sprintf("%s %s = %s", placeNames[p], universe.Desc(t, 4), universe.DescVal(v, 4)), detail+" ("+id+")")
 			}
 		}
